@@ -265,6 +265,9 @@ theorem inv_step (hasKv : Bool) (s : State) (sp : Spec) (log : List Call) (op : 
   | nextFail =>
     have hg := inv_generateFail hasKv s sp log true h
     simpa [step, Spec.step, Option.toList] using hg
+  | nextBadLogits =>
+    have hg := (inv_generateImpl hasKv s sp log true h).1
+    simpa [step, Spec.step, Option.toList] using hg
   | nextEmpty =>
     have hg := (inv_generateImpl hasKv s sp log true h).1
     by_cases he : s.inputIds.isEmpty = true <;>
@@ -320,6 +323,9 @@ theorem step_call_ok (r : Rule) (s : State) (op : Op) (hf : op.isFail = false) :
   | nextFail => simp [Op.isFail] at hf
   | process =>
     have : (step r s .process).call = some (generateImpl r s false).2 := rfl
+    rw [this, generateImpl_call] at hc; cases hc; rfl
+  | nextBadLogits =>
+    have : (step r s .nextBadLogits).call = some (generateImpl r s true).2 := rfl
     rw [this, generateImpl_call] at hc; cases hc; rfl
   | nextEmpty =>
     have : (step r s .nextEmpty).call = some (generateImpl r s true).2 := by
@@ -377,6 +383,7 @@ theorem refeed_step (s : State) (op : Op) (h : Refeed s) (hd : op.discards = fal
     refine ⟨hkv, by simp [step]; omega, ?_⟩
     simp [step, hprev, List.take_append_of_le_length hrec]
   | process => simp [step, generateImpl, hkv, Refeed, hprev]
+  | nextBadLogits => simp [step, generateImpl, hkv, Refeed, hprev]
   | processFail => simp [step, generateFail, hkv, Refeed, hprev, hrec]
   | nextFail => simp [step, generateFail, hkv, Refeed, hprev, hrec]
   | nextEmpty =>
@@ -397,5 +404,66 @@ theorem refeed_runFrom (ops : List Op) (s : State) (h : Refeed s)
     simp only [runFrom]
     exact ih _ (refeed_step s op h (hd op List.mem_cons_self))
       (fun o ho => hd o (List.mem_cons_of_mem _ ho))
+
+/-! ## Every submitted token is fed exactly once (KV cache) -/
+
+theorem fed_okCalls_append (l : List Call) (c : Call) :
+    fed (okCalls (l ++ [c])) = fed (okCalls l) ++ (if c.ok then c.toks else []) := by
+  cases h : c.ok <;> simp [fed, okCalls, List.filter_append, h]
+
+theorem take_sub_append (acc xs : List Nat) :
+    (acc ++ xs).take ((acc ++ xs).length - xs.length) = acc := by
+  simp
+
+theorem step_kv_isSome (s : State) (op : Op) (h : s.kv.isSome = true) :
+    (step .tracked s op).st.kv.isSome = true := by
+  obtain ⟨held, hk⟩ := Option.isSome_iff_exists.mp h
+  cases op <;> simp [step, generateImpl, generateFail, hk] <;> (try split) <;> simp [hk]
+
+/-- One operation: the `Sub` bookkeeping follows `acc ++ (tokens fed successfully) ++ pending`. -/
+theorem sub_step (s : State) (op : Op) (acc : List Nat) (h : s.kv.isSome = true) :
+    Sub.step ⟨acc ++ s.inputIds, s.inputIds.length⟩ op =
+      ⟨acc ++ fed (okCalls (step .tracked s op).call.toList) ++ (step .tracked s op).st.inputIds,
+       (step .tracked s op).st.inputIds.length⟩ := by
+  obtain ⟨held, hk⟩ := Option.isSome_iff_exists.mp h
+  cases op with
+  | withPrompt p => simp [Sub.step, step, fed, okCalls]
+  | append p => simp [Sub.step, step, fed, okCalls]
+  | clear => simp [Sub.step, step, fed, okCalls]
+  | process => simp [Sub.step, step, generateImpl, hk, callOf, fed, okCalls]
+  | nextBadLogits => simp [Sub.step, step, generateImpl, hk, callOf, fed, okCalls]
+  | processFail => simp [Sub.step, step, generateFail, callOf, fed, okCalls]
+  | nextFail => simp [Sub.step, step, generateFail, callOf, fed, okCalls]
+  | nextEmpty =>
+    by_cases he : s.inputIds = [] <;>
+      simp [Sub.step, step, generateImpl, hk, callOf, fed, okCalls, he]
+  | next t =>
+    by_cases he : s.inputIds = []
+    · simp [Sub.step, step, generateImpl, hk, callOf, fed, okCalls, he]
+    · have hl : s.inputIds.length ≠ 0 := by
+        intro h0; exact he (List.length_eq_zero_iff.mp h0)
+      simp [Sub.step, step, generateImpl, hk, callOf, fed, okCalls, he, hl]
+
+theorem sub_runFrom (ops : List Op) (s : State) (acc : List Nat) (h : s.kv.isSome = true) :
+    ops.foldl Sub.step ⟨acc ++ s.inputIds, s.inputIds.length⟩ =
+      ⟨acc ++ fed (okCalls (runFrom .tracked s ops).2) ++ (runFrom .tracked s ops).1.inputIds,
+       (runFrom .tracked s ops).1.inputIds.length⟩ := by
+  induction ops generalizing s acc with
+  | nil => simp [runFrom, fed, okCalls]
+  | cons op ops ih =>
+    simp only [List.foldl_cons, runFrom]
+    rw [sub_step s op acc h, ih _ _ (step_kv_isSome s op h)]
+    simp [fed, okCalls, List.filter_append, List.flatMap_append, List.append_assoc]
+
+/-- Appending prompts only extends the pending tokens and calls nothing. -/
+theorem runFrom_appends (r : Rule) (s : State) (ps : List (List Nat)) (rest : List Op) :
+    runFrom r s (ps.map Op.append ++ rest) =
+      runFrom r { s with inputIds := s.inputIds ++ ps.flatten } rest := by
+  induction ps generalizing s with
+  | nil => simp
+  | cons p ps ih =>
+    simp only [List.map_cons, List.cons_append, runFrom, step, Option.toList, List.nil_append]
+    rw [ih]
+    simp [List.append_assoc]
 
 end RtenVerif.Generator
